@@ -118,7 +118,7 @@ theorem newest_first {L : List Inst} (h : L.Pairwise (· < ·)) : L.reverse.Pair
   rw [List.pairwise_reverse]
   exact h.imp (fun hab => hab)
 
-theorem idxOf_cons_ne' (x a : Inst) (rest : List Inst) (h : x ≠ a) : (x :: rest).idxOf a = rest.idxOf a + 1 := by
+theorem idxOf_cons_of_ne (x a : Inst) (rest : List Inst) (h : x ≠ a) : (x :: rest).idxOf a = rest.idxOf a + 1 := by
   rw [List.idxOf_cons]
   have : (x == a) = false := by simp [h]
   simp [this]
@@ -142,7 +142,7 @@ theorem consumer_closed_before_what_it_received {L : List Inst} (h : L.Pairwise 
         · exact absurd h hbx
         · exact h
       rw [List.idxOf_cons_self]
-      rw [idxOf_cons_ne' _ _ _ (fun e => hbx e.symm)]
+      rw [idxOf_cons_of_ne _ _ _ (fun e => hbx e.symm)]
       exact Nat.succ_pos _
     · have har : a ∈ rest := by
         rcases List.mem_cons.1 ha' with h | h
@@ -156,7 +156,7 @@ theorem consumer_closed_before_what_it_received {L : List Inst} (h : L.Pairwise 
         rcases List.mem_cons.1 hb' with h | h
         · exact absurd h.symm hxb
         · exact h
-      rw [idxOf_cons_ne' _ _ _ hxa, idxOf_cons_ne' _ _ _ hxb]
+      rw [idxOf_cons_of_ne _ _ _ hxa, idxOf_cons_of_ne _ _ _ hxb]
       exact Nat.succ_lt_succ (ih hp.2 har hbr)
 
 /-- scoped 4 (disposable) consumes scoped 3 (disposable): created 3 then 4, closed 4 then 3 -/
